@@ -83,6 +83,7 @@ def cases(tier, seed):
                         "seed": int(rng.integers(1 << 30)),
                         # the training loops save right after test(), i.e. in inference mode
                         "eval_mode_at_save": bool(rng.random() < 0.4),
+                        "nondefault": bool((h + zoo.ALL.index(algo)) % 3 == 1),
                     }
                     if algo in zoo.HAS_SHARE_ENCODERS:
                         c["share_encoders"] = bool(h % 2 == 0)
@@ -264,7 +265,7 @@ def run_case(case):
                 zoo.learn(restored, batch=b, rollout=r)
             ran = True
             rec.hit("continuation_checks")
-            d2 = [d for d in c01._update_diffs(orig, restored, walk) if not _is_checkpoint_metadata(d) and not any(i in d["path"] for i in IGNORE)]
+            d2 = [d for d in c01._update_diffs(orig, restored, walk, steps=int(case["k"])) if not _is_checkpoint_metadata(d) and not any(i in d["path"] for i in IGNORE)]
             # scale the weight tolerance with the number of steps: handled inside by 2.1 lr per comparison; k steps
             # can accumulate k times that for tiny-gradient elements
             d2 = [d for d in d2 if not _within_k(d, case["k"])]
